@@ -1,6 +1,7 @@
 pub mod compile;
 pub mod maps;
 pub mod modules;
+pub mod sem;
 pub mod stack;
 pub mod values;
 pub mod vm;
@@ -18,6 +19,7 @@ pub fn all() -> Vec<Box<dyn Engine>> {
         Box::new(modules::ModEngine),
         Box::new(compile::CmpEngine),
         Box::new(vm::VmEngine),
+        Box::new(sem::SemEngine),
     ]
 }
 
